@@ -74,3 +74,12 @@ Lemma rk4_gen_linear_forced_cubic l a0 a1 a2 a3 h t y :
   taylor y (lf_derivs l a0 a1 a2 a3 t y) h + h ^ 5 * lf_defect l a2 a3 t h.
 Proof. unfold RK4_R. rewrite rk4_gen_is_doc. cbn [fst]. apply rk4_doc_linear_forced_cubic. Qed.
 
+
+(* nonlinear right-hand sides: explicit fifth-order defects *)
+Lemma rk4_gen_ty c h t y :
+  RK4_R (fun t y => c * t * y) h t y = taylor y (ty_derivs c t y) h + h ^ 5 * ty_defect c t y h.
+Proof. unfold RK4_R. rewrite rk4_gen_is_doc. cbn [fst]. apply rk4_doc_ty. Qed.
+
+Lemma rk4_gen_logistic r h t y :
+  RK4_R (fun _ y => r * y * (1 - y)) h t y = taylor y (logistic_derivs r y) h + h ^ 5 * logistic_defect r y h.
+Proof. unfold RK4_R. rewrite rk4_gen_is_doc. cbn [fst]. apply rk4_doc_logistic. Qed.
